@@ -10,7 +10,7 @@ import numpy as np
 
 ID = "C10"
 SHARDS = {"quick": 8, "thorough": 16}
-BUDGET = {"quick": 45, "thorough": 420}
+BUDGET = {"quick": 300, "thorough": 1800}
 RULE = ("forecast sets with n in 2..40 forecasts, m in 1..12 members, values on the "
         "k/2 lattice in [-3, 3] (exact ties; gaps >> the 1e-6 / 1e-8 tie tolerances "
         "also after exp / arctan / x^3+x / affine maps), incl. ensembles identical "
